@@ -1,6 +1,9 @@
 // C13 harness: arbitrary wire-valid query messages (every opcode, class, EDNS version,
 // option list, client-subnet contents) against root-zone, root-delegation, empty and
-// generated databases on the three backends; panics are recovered and recorded.
+// generated databases on the three backends; panics are recovered and recorded.  A further
+// class runs handlers with the response cache enabled on short query histories (the same
+// question without OPT / with EDNS version 0, then with versions 1, 2, 255, and the reverse;
+// unknown options, other opcodes and classes on a warm cache).
 package main
 
 import (
